@@ -26,6 +26,7 @@ type Program struct {
 	nObj    int
 	pkgTypes []types.Type // all package-level named types T and *T, sorted
 	contCache map[string]string
+	roleUnseen []string // function values supplied to callback roles that could not be followed
 	fakeTypes map[string]types.Type // replay: synthetic dynamic types of scripted fakes
 	fakeIface map[int]types.Type    // fake type id -> the interface it fakes
 }
@@ -130,6 +131,7 @@ func loadProgram(repo string, specFiles []string, externFiles []string) (*Progra
 	if err := p.deriveAll(); err != nil {
 		return nil, err
 	}
+	p.roleUnseen = p.addRoleImplSpecs()
 	return p, nil
 }
 
